@@ -168,8 +168,14 @@ type history struct {
 	g     *gen
 	mu    sync.Mutex
 	done  []*caseOut
+	wins  []hwin // write windows of the finished records, in order of completion
 	nodes []*hnode
 	stats map[string]int
+}
+
+type hwin struct {
+	sink   *scriptW
+	lo, hi int
 }
 
 func (hs *history) count(k string) {
@@ -189,13 +195,18 @@ func deriveNode(p *hnode, s chainStep) *hnode {
 }
 
 // logOne logs one record through node n and files it as a finished case. hook (may be nil) is armed for the
-// duration of the call only; excl collects the write windows (on n's sink) of records logged from inside the call.
-func (hs *history) logOne(n *hnode, lvl int, t time.Time, msg string, attrs []slog.Attr, hook *hookState, excl *[][2]int, viaLogger bool) {
+// duration of the call only. The record's writes are those its destination received during the call, minus the
+// windows of the records that were logged to completion during the call (nested in it, or by the other goroutine
+// while this one was parked).
+func (hs *history) logOne(n *hnode, lvl int, t time.Time, msg string, attrs []slog.Attr, hook *hookState, viaLogger bool) {
 	c := &caseOut{level: lvl, msg: msg, file: "~", chain: n.chain}
 	rec := slog.NewRecord(t, levels[lvl], msg, 0)
 	rec.AddAttrs(attrs...)
 	rec.Attrs(func(a slog.Attr) bool { c.attrs = append(c.attrs, walkAttr(a)); return true }) // hooks are not armed here
 	c.timeTx = string(t.AppendFormat(nil, time.RFC3339Nano))
+	hs.mu.Lock()
+	mark := len(hs.wins)
+	hs.mu.Unlock()
 	lo := n.sink.len()
 	before := time.Now()
 	func() {
@@ -217,9 +228,13 @@ func (hs *history) logOne(n *hnode, lvl int, t time.Time, msg string, attrs []sl
 	after := time.Now()
 	hi := n.sink.len()
 	var ex [][2]int
-	if excl != nil {
-		ex = *excl
+	hs.mu.Lock()
+	for _, w := range hs.wins[mark:] {
+		if w.sink == n.sink {
+			ex = append(ex, [2]int{w.lo, w.hi})
+		}
 	}
+	hs.mu.Unlock()
 	c.writes = n.sink.slice(lo, hi, ex)
 	if viaLogger { // the Logger stamps the record itself: the time text is read back and must be "now"
 		c.timeTx = "?"
@@ -233,6 +248,7 @@ func (hs *history) logOne(n *hnode, lvl int, t time.Time, msg string, attrs []sl
 	}
 	hs.mu.Lock()
 	hs.done = append(hs.done, c)
+	hs.wins = append(hs.wins, hwin{n.sink, lo, hi})
 	hs.mu.Unlock()
 }
 
@@ -284,22 +300,17 @@ func (hs *history) someAttrs() []slog.Attr {
 func (hs *history) node() *hnode { return hs.nodes[hs.g.r.Intn(len(hs.nodes))] }
 
 // nested: the outer record carries a hook that logs `depth` levels of inner records while it is being formatted
-func (hs *history) nested(n *hnode, depth int, excl *[][2]int, tag string) {
+func (hs *history) nested(n *hnode, depth int, tag string) {
 	r := hs.g.r
 	attrs := hs.someAttrs()
 	var st *hookState
-	var own [][2]int
 	if depth > 0 {
 		st = &hookState{}
 		in := hs.node()
 		nInner := 1 + r.Intn(2)
 		st.fn = func() {
 			for k := 0; k < nInner; k++ {
-				lo := in.sink.len()
-				hs.nested(in, depth-1, nil, tag+"i")
-				if in.sink == n.sink {
-					own = append(own, [2]int{lo, in.sink.len()})
-				}
+				hs.nested(in, depth-1, tag+"i")
 			}
 		}
 		ha, kind := hs.hookAttr(st)
@@ -308,11 +319,7 @@ func (hs *history) nested(n *hnode, depth int, excl *[][2]int, tag string) {
 		attrs = append(attrs[:at:at], append([]slog.Attr{ha}, attrs[at:]...)...)
 		attrs = append(attrs, slog.Bool("z", true))
 	}
-	lo := n.sink.len()
-	hs.logOne(n, r.Intn(5), hs.g.time(), tag, attrs, st, &own, r.Chance(30))
-	if excl != nil {
-		*excl = append(*excl, [2]int{lo, n.sink.len()})
-	}
+	hs.logOne(n, r.Intn(5), hs.g.time(), tag, attrs, st, r.Chance(30))
 	if st != nil && st.fired == 0 {
 		hs.count("history_hook_never_fired")
 	}
@@ -336,21 +343,15 @@ func (hs *history) overlapped(n *hnode) {
 	attrs = append(attrs[:at:at], append([]slog.Attr{ha}, attrs[at:]...)...)
 	attrs = append(attrs, slog.Bool("z", true))
 	lvl, t, via := r.Intn(5), hs.g.time(), r.Chance(30)
-	var own [][2]int
 	go func() {
 		defer close(done)
-		hs.logOne(n, lvl, t, "outer-parked", attrs, st, &own, via) // own is complete before the hook returns
+		hs.logOne(n, lvl, t, "outer-parked", attrs, st, via)
 	}()
 	select {
 	case <-entered:
 		nInner := 1 + r.Intn(3)
 		for k := 0; k < nInner; k++ {
-			in := hs.node()
-			lo := in.sink.len()
-			hs.nested(in, r.Intn(2), nil, "inner-of-parked")
-			if in.sink == n.sink {
-				own = append(own, [2]int{lo, in.sink.len()})
-			}
+			hs.nested(hs.node(), r.Intn(2), "inner-of-parked")
 		}
 		hs.count("history_overlaps")
 	case <-done:
@@ -419,12 +420,12 @@ func (hs *history) scenario(idx int) {
 			n := hs.node()
 			n.sink.failNext(k, kind)
 			for i := 0; i < k; i++ {
-				hs.nested(n, 0, nil, "lost")
+				hs.nested(n, 0, "lost")
 			}
 		}
 	}
 	for i := r.Intn(3); i > 0; i-- {
-		hs.nested(hs.node(), r.Intn(2), nil, "before")
+		hs.nested(hs.node(), r.Intn(2), "before")
 	}
 	failPhase()
 	steps := 4 + r.Intn(8)
@@ -433,15 +434,15 @@ func (hs *history) scenario(idx int) {
 		case x < 1:
 			failPhase()
 		case x < 3:
-			hs.nested(hs.node(), 0, nil, "plain")
+			hs.nested(hs.node(), 0, "plain")
 		case x < 7:
-			hs.nested(hs.node(), 1+r.Intn(2), nil, "outer")
+			hs.nested(hs.node(), 1+r.Intn(2), "outer")
 		default:
 			hs.overlapped(hs.node())
 		}
 	}
 	// the demonstration shape, always: one nested and one overlapped record at the very end
-	hs.nested(root, 1, nil, "outer")
+	hs.nested(root, 1, "outer")
 	hs.overlapped(nA)
 }
 
